@@ -115,6 +115,14 @@ _math('math_pow_int_square', [('b', 'i64')], 'pow(int, 2) is exact or an error',
       bound='exponent 2 only (checked_pow loop unwound 4 times)')
 _math('math_pow_int_negative_or_huge_exponent_is_error', [('b', 'i64'), ('e', 'i64')], 'pow(int, int) with a negative exponent or one beyond 32 bits is an error', 'pow(a, b)',
       lambda v: {'a': {'int': str(v['b'])}, 'b': {'int': str(v['e'])}}, lambda v: ('error',), ['math::pow(i64,i64)'])
+PW = 'rscel/src/context/default_funcs/math/pow.rs'
+for _n, _c, _v in [('pow_float_exponent_accepts_only_whole_u32', 'float_exponent(f) accepts only doubles that are whole numbers in 0 ..= u32::MAX and returns that number; every rejected double is the image of no u32', [('f', 'f64')]),
+                   ('pow_float_exponent_accepts_every_u32', 'float_exponent(e as f64) == Ok(e) for every u32 e', [('e', 'u32')]),
+                   ('pow_int_exponent_i64', 'int_exponent(n: i64) is the same number when 0 <= n <= u32::MAX and an error otherwise', [('n', 'i64')]),
+                   ('pow_int_exponent_u64', 'int_exponent(n: u64) is the same number when n <= u32::MAX and an error otherwise', [('n', 'u64')])]:
+    KANI[_n] = dict(inject=PW, module='pow.rs', fq=f'context::default_funcs::math::pow::verif_kani_pow::{_n}', exhaustive=True, functions=['math::pow::float_exponent' if 'float' in _n else 'math::pow::int_exponent'],
+                    claim=_c, vars=_v, replay=None)
+POWEXP = [k for k in KANI if k.startswith('pow_')]
 MATH = [k for k in KANI if k.startswith('math_') and not k.startswith('math_pow')]   # pow: CBMC does not finish on checked_pow's multiplication chain (measured > 40 min)
 
 for _n, _c in [('time_ts_plus_dur', 't + d is the chrono result or an error when not representable, and (t + d) - d == t'),
@@ -125,7 +133,7 @@ for _n, _c in [('time_ts_plus_dur', 't + d is the chrono result or an error when
                     claim=_c, vars=None)
 
 ALL_UNITS = ['value_arith', 'value_cmp', 'value_coll', 'macros', 'preresolved', 'interp', 'interp_vm_g0', 'interp_vm_g1', 'interp_vm_g2', 'interp_vm_g3',
-             'interp_vm_g4', 'interp_vm_g5', 'interp_vm_g6', 'interp_vm_g7', 'builtins', 'wiring', 'parser', 'json', 'compprog', 'parser_expr', 'parser_unary', 'parser_match', 'scanner', 'tokenizer', 'parser_member', 'parser_matchx', 'parser_top', 'balance', 'semantics', 'bindctx', 'strfuncs', 'uomconv', 'sortfn']
+             'interp_vm_g4', 'interp_vm_g5', 'interp_vm_g6', 'interp_vm_g7', 'builtins', 'wiring', 'parser', 'json', 'compprog', 'parser_expr', 'parser_unary', 'parser_match', 'scanner', 'tokenizer', 'parser_member', 'parser_matchx', 'parser_top', 'balance', 'semantics', 'bindctx', 'strfuncs', 'uomconv', 'sortfn', 'mathfuncs']
 
 PROPS = {
     'C02': dict(
@@ -162,7 +170,7 @@ PROPS = {
         units=ALL_UNITS, safety_only=True,
         mechanism_clauses=['too_deep_is_an_error', 'continues_the_callers_depth', 'the_body_runs_at_the_callers_depth'],
         kani_quick=[],
-        kani_thorough=ARITH_FAST + CONV + MATH,
+        kani_thorough=ARITH_FAST + CONV + MATH + POWEXP,
         level_text='Totality is the conjunction of the safety obligations of every function under contract: for each of them Verus proves, for all inputs satisfying its precondition, no arithmetic overflow, no division by zero, every index in bounds, every unwrap/expect on Some/Ok, every panic!/unreachable! unreachable, and that each call site establishes its callee\'s precondition. The claim covers exactly the functions listed in the evidence (value operators, comparisons, indexing, macros, the VM loop and stack, label resolution, the tokenizer and every parse function of the compiler, JSON binding, sort, the string / time / unit-conversion wrappers, numeric built-ins through Kani); it is not a whole-program claim.',
         not_covered=['functions not under contract: protobuf conversions, Display / Debug formatting, the internals of regex / uom / chrono-tz / serde_json, matchCaptures, zip / now and the remaining small built-ins, the #[dispatch]-generated entry points (arity and type rejection), CelContext and Program (de)serialization, python / wasm bindings',
                      'stack exhaustion by deep syntactic nesting in the parser (no depth guard to put a contract on)', 'termination (never fails to return) is not proved',
@@ -178,13 +186,13 @@ PROPS = {
         assumptions=['chrono checked_add_signed / checked_sub_signed / Duration::checked_add / checked_sub return None exactly when the result is not representable'],
     ),
     'C15': dict(
-        units=['wiring', 'strfuncs'],
-        kani_quick=MATH,
+        units=['wiring', 'strfuncs', 'mathfuncs'],
+        kani_quick=MATH + POWEXP,
         kani_thorough=[],
         not_covered=['the algebra of split/join, trim*, replace, regex semantics: properties of std / regex, not of any rscel function (assumed)',
                      'matchCaptures (iterator adapters over regex captures) and the arity/type rejection of the #[dispatch] entry points (generated by the proc macro): not under contract; replace/remove/trim*/toLower/toUpper/splitWhiteSpace/matches/matchReplace* ARE (unit strfuncs: which std / regex function on which argument, invalid pattern = error; toLower..trimEnd after mechanical expansion of string_func!)',
-                     'pow: not decided (CBMC does not terminate on checked_pow; no Verus contract): only read + fixed (F3)'],
-        assumptions=[],
+                     'pow: what std\'s checked_pow / powi / powf compute is assumed (checked_pow = the mathematical power when representable, None otherwise); that pow accepts exactly the exponents 0 ..= u32::MAX (int, uint, whole doubles: float_exponent and int_exponent are proved by Kani over the full domain), applies checked_pow to exactly (base, exponent) and turns None into an error IS under contract (unit mathfuncs); CBMC does not terminate on checked_pow itself'],
+        assumptions=['std: checked_pow / checked_abs / checked_ilog2 / checked_ilog10 / u32::try_from / i32::try_from as documented (trampoline contracts of unit mathfuncs)'],
     ),
     'C14': dict(
         units=['interp_vm_g5', 'wiring', 'parser_unary'],
